@@ -125,3 +125,18 @@ def search(ctx, strength):
 def replay(ctx):
     regen(ctx)
     search(ctx, "thorough")
+
+META = {
+    "technique": "Coq proof: finite complete sweeps over tables regenerated from the source (BigZ vm_compute, lifted with "
+                 "forallb_forall) + general theorems on the translated Duffy regions; correspondence by exact rational diff",
+    "level_text": "Theorems in coq/props/C12.v over tables, lookup guards and Duffy region formulas regenerated from "
+                  "bempp_cl/api/integration/*.py on every run: exactness of all 20 triangle and 30 Gauss rules to 1e-14 on the "
+                  "exact values of the shipped doubles (complete finite sweep), rejection outside the ranges (all integers), "
+                  "advertised point counts (all orders), the product-moment theorem for every 1-D rule and the Sauter-Schwab "
+                  "identity for all monomials of degree <= 8, remap placement for all 6+3 cases and all points. "
+                  "Convergence on 1/|x-y| is only exercised on the implementation by the search.",
+    "level_note": "Trusted: Coq kernel + vm_compute + primitive int63 (Bignums); translators/tables.py (AST shape match, "
+                  "fails closed); the correspondence harness; IEEE arithmetic of NumPy. Not proved: perturbation bound "
+                  "combining Gauss-moment error with the exact identity; identity above degree 8; 1/r convergence.",
+    "design_ref": "DESIGN.md §7 C12",
+}
